@@ -27,16 +27,51 @@ Definition headers_eqb (a b : list header) : bool := if list_eq_dec header_eq_de
 
 Definition spec (c : case) : response := expected (cenv c) (cpath c) (chandlers c).
 
+(* Is the expected reply one the SERVER generates on its own account (malformed path -> 400, nobody accepts -> 404,
+   a handler method raises -> 500)?  The property fixes its status and that it is one well-formed response, not the text
+   of the page; for everything a handler RETURNS (also a bare status >= 400) the comparison stays exact. *)
+Fixpoint own_error_loop (hs : list handler) : bool :=
+  match hs with
+  | [] => true
+  | h :: r => if prep_raises h || can_raises h then true
+              else if can h then (match act h with HRaise => true | HReturn _ _ _ => false end)
+              else own_error_loop r
+  end.
+Definition own_error (c : case) : bool := bad_path (cpath c) || own_error_loop (chandlers c).
+
+Fixpoint find_hdr (name : bytes) (hs : list header) : option bytes :=
+  match hs with
+  | [] => None
+  | h :: r => if bytes_eqb (fst h) name then Some (snd h) else find_hdr name r
+  end.
+(* a Content-Length header, if present, gives the length of the body (or there is no body: HEAD) *)
+Definition cl_ok (r : response) : bool :=
+  match find_hdr S_ContentLength (r_headers r) with
+  | None => true
+  | Some v => bytes_eqb v (dec (N.of_nat (length (r_body r)))) || (match r_body r with [] => true | _ => false end)
+  end.
+
 (* failed clauses of the property for observation o (empty list = holds) *)
 Definition holds (c : case) (o : obs) : list string :=
   (match o_resp o with
    | Unparsable _ => ["well_formed"%string]
    | Parsed r =>
        (if (r_code r =? r_code (spec c))%N then [] else ["status"%string]) ++
-       (if headers_eqb (r_headers r) (r_headers (spec c)) then [] else ["headers"%string]) ++
-       (if bytes_eqb (r_body r) (r_body (spec c)) then [] else ["body"%string])
+       (if own_error c then (if cl_ok r then [] else ["error_page_consistent"%string])
+        else (if headers_eqb (r_headers r) (r_headers (spec c)) then [] else ["headers"%string]) ++
+             (if bytes_eqb (r_body r) (r_body (spec c)) then [] else ["body"%string]))
    end) ++
   (if (o_nstatus o =? 1)%nat && (o_leftover o =? 0)%nat then [] else ["one_response"%string]).
+
+(* what is compared between model and implementation: for the server's own error replies only the status *)
+Definition canon_obs (c : case) (o : obs) : obs :=
+  if own_error c then
+    {| o_resp := match o_resp o with
+                 | Parsed r => Parsed {| r_code := r_code r; r_reason := []; r_headers := []; r_body := [] |}
+                 | u => u
+                 end;
+       o_nstatus := o_nstatus o; o_leftover := o_leftover o |}
+  else o.
 
 Definition valid (c : case) : Prop :=
   old_end_headers c = false /\ case_ok (cenv c) (chandlers c) = true.
@@ -117,5 +152,5 @@ Definition entry (x : sx) : sx :=
   | None => sxS "bad-case"
   | Some (c, io) =>
       let m := run_model c in
-      L [ enc_obs m; L (map sxS (holds c m)); L (map sxS (holds c io)); enc_pobs (Parsed (spec c)); sxBool (validb c) ]
+      L [ enc_obs (canon_obs c m); L (map sxS (holds c m)); L (map sxS (holds c io)); enc_obs (canon_obs c io); sxBool (validb c) ]
   end.
